@@ -16,23 +16,9 @@ func runMutants(repo, verif string, pd *propDef, verbose bool) int { return 0 }
 
 func mutantSweep(repo string, pd *propDef) *MutantResult { return nil }
 
-func ruleHandshakeTable(c *Ctx) { pending(c, "ruleHandshakeTable") }
-
 func ruleVersionNegotiation(c *Ctx) { pending(c, "ruleVersionNegotiation") }
 
 func ruleEnvVersionsOnly(c *Ctx) { pending(c, "ruleEnvVersionsOnly") }
-
-func ruleIDMux(c *Ctx) { pending(c, "ruleIDMux") }
-
-func ruleSlot(c *Ctx) { pending(c, "ruleSlot") }
-
-func ruleIDGRPC(c *Ctx) { pending(c, "ruleIDGRPC") }
-
-func ruleTLSUse(c *Ctx) { pending(c, "ruleTLSUse") }
-
-func ruleMuxSer(c *Ctx) { pending(c, "ruleMuxSer") }
-
-func ruleIDKnock(c *Ctx) { pending(c, "ruleIDKnock") }
 
 func ruleLogLevels(c *Ctx) { pending(c, "ruleLogLevels") }
 
@@ -42,19 +28,7 @@ func ruleFresh(c *Ctx) { pending(c, "ruleFresh") }
 
 func ruleCopyChan(c *Ctx) { pending(c, "ruleCopyChan") }
 
-func ruleTLSConfig(c *Ctx) { pending(c, "ruleTLSConfig") }
-
-func ruleTLSPools(c *Ctx) { pending(c, "ruleTLSPools") }
-
-func ruleEnvCertOnly(c *Ctx) { pending(c, "ruleEnvCertOnly") }
-
 func ruleReattach(c *Ctx) { pending(c, "ruleReattach") }
 
 func ruleSentinelReattach(c *Ctx) { pending(c, "ruleSentinelReattach") }
-
-func ruleCookie(c *Ctx) { pending(c, "ruleCookie") }
-
-func ruleOrderServe(c *Ctx) { pending(c, "ruleOrderServe") }
-
-func ruleStdout(c *Ctx) { pending(c, "ruleStdout") }
 
